@@ -45,6 +45,7 @@ var (
 	ErrInvalidBlockTimestamp               = errors.New("invalid block timestamp")
 	ErrInvalidWarpSignature                = errors.New("invalid warp signature")
 	ErrInvalidSignatureType                = errors.New("invalid signature type")
+	ErrUnexpectedChunk                     = errors.New("unexpected chunk")
 )
 
 type ChainState interface {
@@ -358,6 +359,11 @@ func (n *Node[T]) Accept(ctx context.Context, block Block) (ExecutedBlock[T], er
 						return
 					}
 
+					if response.id != chunkCert.ChunkID {
+						result <- fmt.Errorf("%w: requested %s, received %s", ErrUnexpectedChunk, chunkCert.ChunkID, response.id)
+						return
+					}
+
 					if _, err := n.storage.VerifyRemoteChunk(response); err != nil {
 						result <- err
 						return
@@ -388,6 +394,8 @@ func (n *Node[T]) Accept(ctx context.Context, block Block) (ExecutedBlock[T], er
 					break
 				}
 			}
+			// the fetched chunk has been verified, stored and appended to chunks
+			continue
 		}
 
 		chunk, err := ParseChunk[T](chunkBytes)
